@@ -11,6 +11,12 @@ Oracle (both clauses are the property statement):
   identical-or-resource-error  every result is the unlimited result or a ResourceLimitError subclass
   monotone                     once a value succeeds every larger value of the sweep succeeds with the same
                                output; the first offending pair (v, v') is reported
+Repeated renders (every 4th case in quick, every case in thorough; every limit): the template is parsed once per
+limit value and the SAME template object is rendered four times (full data, shrunk data, no data, full data) at
+the largest aborting value, the smallest succeeding value, the far value and, for the output limit, the size and
+size-1 of every render of the sequence; each render must equal the corresponding render of the unlimited sequence
+(same object, same number of renders) or be a ResourceLimitError.
+
 A sweep whose largest finite value still aborts did not reach "beyond the resource actually used": that is
 a harness error (exit 2), never a pass.
 """
@@ -32,6 +38,7 @@ UNLIMITED = {"loop_iteration_limit": None, "output_stream_limit": None, "local_n
 FAR = {"loop_iteration_limit": K.FAR, "output_stream_limit": K.FAR, "local_namespace_limit": K.FAR,
        "context_depth_limit": K.FAR_DEPTH, "block_nesting_limit": K.FAR_DEPTH}
 N_SHARDS = {"quick": 64, "thorough": 256}
+REPEAT_EVERY = {"quick": 4, "thorough": 1}  # repeated-render check on every n-th case of the (family-ordered) list
 
 _STORE: dict[str, str] = {}
 _ENVS: dict[tuple[Optional[str], Optional[int], bool], Any] = {}
@@ -63,7 +70,7 @@ def run(case: dict[str, Any], limit: Optional[str], value: Optional[int], api: s
     _STORE.clear()
     _STORE.update(case["partials"])
     env = get_env(limit, value, bool(case.get("extra")))
-    d = meter.fresh(case["data"])
+    d = meter.fresh(revive(case["data"]))
 
     def go() -> Any:
         t = env.from_string(case["source"])
@@ -72,6 +79,128 @@ def run(case: dict[str, Any], limit: Optional[str], value: Optional[int], api: s
         return U.run_coro(t.render_async(**d))
 
     return meter.metered(lambda: U.outcome(go))
+
+
+def revive(data: Any) -> Any:
+    """Replay files store a range as {"__range__": [start, stop]}."""
+    if isinstance(data, dict):
+        if set(data) == {"__range__"}:
+            return range(*data["__range__"])
+        return {k: revive(v) for k, v in data.items()}
+    if isinstance(data, list):
+        return [revive(v) for v in data]
+    return data
+
+
+def shrink(data: dict[str, Any]) -> dict[str, Any]:
+    """The same variables with smaller values, so that the same template renders less text."""
+    out: dict[str, Any] = {}
+    for k, v in data.items():
+        if isinstance(v, bool) or v is None:
+            out[k] = v
+        elif isinstance(v, int):
+            out[k] = v // 2
+        elif isinstance(v, str):
+            out[k] = v[:1]
+        elif isinstance(v, list):
+            out[k] = v[:1]
+        elif isinstance(v, range):
+            out[k] = range(v.start, min(v.stop, v.start + 1))
+        else:
+            out[k] = v
+    return out
+
+
+def sequence_of(case: dict[str, Any]) -> list[dict[str, Any]]:
+    """Data for consecutive renders of ONE template object: full, shrunk, none at all, full again."""
+    data = revive(case["data"])
+    return [data, shrink(data), {}, data]
+
+
+def run_sequence(case: dict[str, Any], limit: Optional[str], value: Optional[int], datas: list[dict[str, Any]],
+                 api: str = "sync") -> list[Any]:
+    """Parse once, render the same template object once per data set -> one Outcome per render."""
+    from mc import util as U
+
+    _STORE.clear()
+    _STORE.update(case["partials"])
+    env = get_env(limit, value, bool(case.get("extra")))
+    parsed = U.outcome(lambda: env.from_string(case["source"]))
+    if not parsed.ok:
+        return [parsed for _ in datas]
+    t = parsed.value
+    outs = []
+    for data in datas:
+        d = meter.fresh(data)
+        if api == "sync":
+            outs.append(U.outcome(lambda: t.render(**d)))
+        else:
+            outs.append(U.outcome(lambda: U.run_coro(t.render_async(**d))))
+    return outs
+
+
+def repeat_values(limit: str, results: list[tuple[int, Any]], base_seq: list[Any]) -> list[int]:
+    """Limit values for the repeated-render check: the largest value that aborts the single render, the smallest
+    that lets it succeed, the far value; for the output limit also the size (and size - 1) of every render of the
+    unlimited sequence, so that a longer or an aborted render is followed by one that fits."""
+    vals: set[int] = {FAR[limit]}
+    failing = [v for v, o in results if not o.ok and v != FAR[limit]]
+    passing = [v for v, o in results if o.ok and v != FAR[limit]]
+    if failing:
+        vals.add(max(failing))
+    if passing:
+        vals.add(min(passing))
+    if limit == "output_stream_limit":
+        for o in base_seq:
+            if o.ok:
+                n = len(o.value.encode("utf-8"))
+                vals |= {n, max(n - 1, 0)}
+    return sorted(vals)
+
+
+def check_repeat(case: dict[str, Any], limit: str, results: list[tuple[int, Any]], base_seq: list[Any],
+                 datas: list[dict[str, Any]], api: str, res: Optional[Result]) -> list[dict[str, Any]]:
+    """The same parsed template rendered several times under a limit: every render must equal the corresponding
+    render of the unlimited sequence (same template object, same number of renders) or be a ResourceLimitError."""
+    viols: list[dict[str, Any]] = []
+    sizes = [len(o.value) if o.ok else -1 for o in base_seq]
+    shrinks = any(0 <= sizes[i] < max(sizes[:i]) for i in range(1, len(sizes)))
+    for v in repeat_values(limit, results, base_seq):
+        outs = run_sequence(case, limit, v, datas, api)
+        bad = None
+        for i, (o, want) in enumerate(zip(outs, base_seq)):
+            if kind_of(o) == kind_of(want) or is_resource_error(o):
+                continue
+            bad = (i, o, want)
+            break
+        n_ok = sum(1 for o in outs if o.ok)
+        n_lim = sum(1 for o in outs if is_resource_error(o))
+        if bad is not None:
+            i, o, want = bad
+            earlier = "after-aborted-render" if any(is_resource_error(x) for x in outs[:i]) else "after-completed-render"
+            viols.append({
+                "signature": {"clause": "identical-or-resource-error", "limit": limit, "family": case["family"], "api": api,
+                              "got": "different-output" if o.ok else o.error_class,
+                              "feature": f"repeated-render:{'first' if i == 0 else earlier}"},
+                "what": f"{case['source']!r} partials={case['partials']!r} ({api}) {limit}={v}: render #{i + 1} of the SAME "
+                        f"template object with data={datas[i]!r} gives {_short(o)}, the unlimited sequence gives "
+                        f"{_short(want)} (earlier renders: {[_short(x) for x in outs[:i]]})",
+                "case": {"family": case["family"], "source": case["source"], "partials": case["partials"],
+                         "data": case["data"], "extra": bool(case.get("extra")), "limit": limit, "api": api,
+                         "repeat": True, "loop_vals": case["loop_vals"], "depth_top": case["depth_top"],
+                         "block_top": case["block_top"]}})
+        if res is not None:
+            pattern = "all-complete" if n_lim == 0 else "all-abort" if n_ok == 0 else "abort-then-complete" \
+                if any(is_resource_error(outs[i]) and any(o.ok for o in outs[i + 1:]) for i in range(len(outs))) \
+                else "complete-then-abort"
+            res.case(n=len(outs),
+                     nontrivial=[case["family"], case["source"], sorted(case["partials"].items()), limit, api, v, "repeat"]
+                     if (n_ok >= 1 and (shrinks or n_lim >= 1)) else None,
+                     outcome=f"{case['family']}:{limit}:repeat:{pattern}" + (":VIOLATION" if bad else ""))
+            res.count("repeated_render_sequences")
+        if viols:
+            break
+    return viols
 
 
 def is_resource_error(o: Any) -> bool:
@@ -106,7 +235,7 @@ def _short(o: Any) -> str:
 
 
 def check_sweep(case: dict[str, Any], limit: str, base: Any, totals: list[int], api: str,
-                res: Optional[Result]) -> list[dict[str, Any]]:
+                res: Optional[Result], out_results: Optional[list[tuple[int, Any]]] = None) -> list[dict[str, Any]]:
     vals = sweep_values(case, limit, base, totals)
     results = [(v, run(case, limit, v, api)[0]) for v in vals]
     # extend (doubling) until the largest finite value is beyond the resource the case uses
@@ -120,6 +249,8 @@ def check_sweep(case: dict[str, Any], limit: str, base: Any, totals: list[int], 
             res.count("sweeps_extended_by_doubling")
     results.append(far)
     vals = [v for v, _ in results]
+    if out_results is not None:
+        out_results.extend(results)
     want = kind_of(base)
     viols: list[dict[str, Any]] = []
     rec = {"family": case["family"], "source": case["source"], "partials": case["partials"], "data": case["data"],
@@ -183,8 +314,8 @@ def check_sweep(case: dict[str, Any], limit: str, base: Any, totals: list[int], 
     return viols
 
 
-def check_case(case: dict[str, Any], tier: str, res: Optional[Result], only: Optional[dict[str, Any]] = None
-               ) -> list[dict[str, Any]]:
+def check_case(case: dict[str, Any], tier: str, res: Optional[Result], only: Optional[dict[str, Any]] = None,
+               repeat: bool = True) -> list[dict[str, Any]]:
     base, totals = run(case, None, None)
     if res is not None:
         res.count("cases:" + case["family"])
@@ -197,11 +328,20 @@ def check_case(case: dict[str, Any], tier: str, res: Optional[Result], only: Opt
                      "case": {**case, "limit": None}}]
     viols: list[dict[str, Any]] = []
     apis = ("sync",) if tier == "quick" else ("sync", "async")
+    datas = sequence_of(case)
+    base_seq: dict[str, list[Any]] = {}
     for limit in LIMITS:
         for api in apis:
             if only is not None and (only.get("limit") != limit or only.get("api", "sync") != api):
                 continue
-            viols += check_sweep(case, limit, base, totals, api, res)
+            results: list[tuple[int, Any]] = []
+            found = check_sweep(case, limit, base, totals, api, res, results)
+            if only is None or not only.get("repeat"):
+                viols += found
+            if repeat and (only is None or only.get("repeat")):
+                if api not in base_seq:
+                    base_seq[api] = run_sequence(case, None, None, datas, api)
+                viols += check_repeat(case, limit, results, base_seq[api], datas, api, res)
     return viols
 
 
@@ -228,7 +368,10 @@ class C08(Check):
         "rebind, capture) x 4 binding sites) "
         "is rendered unlimited, then once per value of a sweep of each of the five "
         "limits (0 .. beyond the use of the case, plus a far value; other limits unlimited). One evaluation = one "
-        "limited parse+render. A (case, limit) sweep is non-trivial iff the limit binds in it: at least one value "
+        "limited parse+render. Every 4th case (thorough: every case) additionally renders one parsed template object four "
+        "times in a row (full, shrunk, no, full data) per limit at 3-9 values, each render compared with the unlimited "
+        "sequence; such a sequence is non-trivial iff a render completes and a later render is shorter than an earlier "
+        "one or some render aborts. A (case, limit) sweep is non-trivial iff the limit binds in it: at least one value "
         "aborts with a ResourceLimitError and at least one succeeds; distinct = distinct (family, source, partials, "
         "data, limit, api)."
     )
@@ -272,8 +415,10 @@ class C08(Check):
         res = Result()
         reset_memo()
         meter.install()
-        for case in cases(tier)[j::k]:
-            for v in check_case(case, tier, res):
+        every = REPEAT_EVERY[tier]
+        for m, case in enumerate(cases(tier)[j::k]):
+            index = j + m * k  # position in the full case list: the sample does not depend on sharding
+            for v in check_case(case, tier, res, repeat=(index % every == 0)):
                 res.violation(v["signature"], v["what"], v["case"])
         return res
 
